@@ -111,6 +111,11 @@ func FloatBoundaries(k Kind, nonFinite bool) []float64 {
 	if nonFinite {
 		out = append(out, math.Inf(1), math.Inf(-1), math.NaN())
 	}
+	if k == KFloat32 {
+		for i, v := range out {
+			out[i] = float64(float32(v)) // a float32 node holds a float32 value, widened exactly
+		}
+	}
 	return out
 }
 
@@ -292,6 +297,11 @@ func GenStructType(t *rapid.T, p Profile, depth int) *Type {
 
 // GenNode draws a value of type ty.
 func GenNode(t *rapid.T, ty *Type, p Profile, depth int) *Node {
+	return genNode(t, ty, p, depth, 0)
+}
+
+// genNode is GenNode with a minimum element count for the outermost container.
+func genNode(t *rapid.T, ty *Type, p Profile, depth int, minLen int) *Node {
 	switch k := ty.K; {
 	case k.IsScalar():
 		return GenScalar(t, ty, p)
@@ -310,17 +320,17 @@ func GenNode(t *rapid.T, ty *Type, p Profile, depth int) *Node {
 		if p.NilLeaves && rapid.IntRange(0, 5).Draw(t, "pnil") == 0 {
 			return &Node{T: ty, Nil: true}
 		}
-		return &Node{T: ty, Elem: GenNode(t, ty.Elem, p, depth)}
+		return &Node{T: ty, Elem: genNode(t, ty.Elem, p, depth, minLen)}
 	case k == KIface:
 		if p.NilLeaves && rapid.IntRange(0, 7).Draw(t, "inil") == 0 {
 			return &Node{T: ty, Nil: true}
 		}
 		return &Node{T: ty, Elem: GenNode(t, genDynType(t, p, depth), p, depth)}
 	case k == KSlice:
-		if rapid.IntRange(0, 9).Draw(t, "snil") == 0 {
+		if minLen == 0 && rapid.IntRange(0, 9).Draw(t, "snil") == 0 {
 			return &Node{T: ty, Nil: true}
 		}
-		n := rapid.IntRange(0, p.maxLen()).Draw(t, "slen")
+		n := rapid.IntRange(minLen, max(minLen, p.maxLen())).Draw(t, "slen")
 		out := &Node{T: ty, Elems: make([]*Node, n)}
 		for i := range out.Elems {
 			out.Elems[i] = GenNode(t, ty.Elem, p, depth-1)
@@ -333,10 +343,10 @@ func GenNode(t *rapid.T, ty *Type, p Profile, depth int) *Node {
 		}
 		return out
 	case k == KMap:
-		if rapid.IntRange(0, 11).Draw(t, "mnil") == 0 {
+		if minLen == 0 && rapid.IntRange(0, 11).Draw(t, "mnil") == 0 {
 			return &Node{T: ty, Nil: true}
 		}
-		n := rapid.IntRange(0, p.maxLen()).Draw(t, "mlen")
+		n := rapid.IntRange(minLen, max(minLen, p.maxLen()+1)).Draw(t, "mlen")
 		out := &Node{T: ty}
 		seen := map[string]bool{}
 		for i := 0; i < n; i++ {
@@ -446,12 +456,16 @@ func GenDatum(t *rapid.T, p Profile) *Node {
 		ty = SliceOf(GenType(t, p, p.Depth-1))
 	case c < 18:
 		ty = PtrTo(MapOf(Scalar(KString), Iface()))
-	case c < 19:
+	case c < 19 && rapid.IntRange(0, 2).Draw(t, "topAny") == 0:
 		ty = GenType(t, p, p.Depth)
 	default:
 		ty = MapOf(Scalar(KString), Iface())
 	}
-	n := GenNode(t, ty, p, p.Depth)
+	minLen := 2
+	if rapid.IntRange(0, 11).Draw(t, "topEmpty") == 0 {
+		minLen = 0
+	}
+	n := genNode(t, ty, p, p.Depth, minLen)
 	if ty.K == KMap && ty.Elem.K == KIface && rapid.IntRange(0, 2).Draw(t, "wrapTop") == 0 {
 		return InIface(n)
 	}
